@@ -90,15 +90,18 @@ def by_prefix(*prefixes):
 # ======================================================================================================
 # archives
 
+VOL_INV = ("LayoutWellFormed", "SortedAscending", "Export")      # MC_Vol: one TLC state per file set, laws as invariants
+
+
 def c01(run):
-    run.scen("MC_Vol", {"MaxFiles": 3 if run.thorough else 2, "Big": "FALSE"})
+    run.scen("MC_Vol", {"MaxFiles": 3 if run.thorough else 2, "Big": "FALSE"}, invariants=VOL_INV, workers=8)
     # members around the 128 KiB copy chunk of Writer::Write(Reader&)
-    run.scen("MC_Vol", {"MaxFiles": 2 if run.thorough else 1, "Big": "TRUE"}, name="MC_Vol (copy-chunk boundary sizes)")
+    run.scen("MC_Vol", {"MaxFiles": 2 if run.thorough else 1, "Big": "TRUE"}, invariants=VOL_INV, workers=8, name="MC_Vol (copy-chunk boundary sizes)")
 
 
 def c02(run):
     # writer direction: TLC asserts WellFormed on every layout; the code's bytes must equal that layout
-    run.scen("MC_Vol", {"MaxFiles": 3 if run.thorough else 2, "Big": "FALSE"}, own=by_prefix("file_eq", "vol_create", "scenario"), name="MC_Vol (writer direction)")
+    run.scen("MC_Vol", {"MaxFiles": 3 if run.thorough else 2, "Big": "FALSE"}, invariants=VOL_INV, workers=8, own=by_prefix("file_eq", "vol_create", "scenario"), name="MC_Vol (writer direction)")
     # reader direction: archives from the independent encoder
     run.scen("MC_VolRef", {}, small_heap=True)
 
@@ -108,7 +111,7 @@ def c03(run):
 
 
 def c17(run):
-    run.scen("MC_Vol", {"MaxFiles": 2, "Big": "FALSE"}, own=by_prefix("vol_index", "vol_member_err", "scenario"), name="MC_Vol (lookups)")
+    run.scen("MC_Vol", {"MaxFiles": 2, "Big": "FALSE"}, invariants=VOL_INV, workers=8, own=by_prefix("vol_index", "vol_member_err", "scenario"), name="MC_Vol (lookups)")
     run.scen("MC_ResMgr", {})
 
 
